@@ -117,6 +117,7 @@ QUICK = [
     VCfg("s", 3, "NTR", "basic", "uint32_t", "v", std="c++20"),
     # FixedCapacityVector with the unchecked growing policy (what SmallSet builds on)
     VCfg("fu", 4, "NTR", "none", "uint8_t", "s3"),
+    VCfg("fu", 8, "TR", "none", "uint8_t", "f3"),  # unchecked against a smaller FixedCapacityVector with the throwing policy (swap2 must honour the latter)
     # C++14: the containers run on the pre-C++17 emulations of the memory algorithms (amc/memory.hpp) under the full set of monitors
     VCfg("s", 3, "TC4", "amc", "uint32_t", "v", std="c++14"),
     VCfg("v", 0, "NTR", "basic", "uint16_t", "s3", std="c++14"),
@@ -476,6 +477,8 @@ class PairCfg:
     def texpr(self, t):
         e = ELEMS[self.elem]
         parts = t.split(":")
+        if parts[0].startswith("fu"):
+            return vec_expr("fu", int(parts[0][2:]), e, None, None)
         if parts[0].startswith("f"):
             return vec_expr("f", int(parts[0][1:]), e, None, None)
         a = alloc_expr(parts[1], e)
@@ -497,6 +500,7 @@ SWAP2_QUICK = [
     PairCfg("NTR", F3, F8), PairCfg("TC4", V8, F8), PairCfg("TR", S2, V8), PairCfg("NTR", S4U8, F8), PairCfg("TC4", V32, S3X), PairCfg("TR", S4, S4),
     # same width, other signedness; a fixed capacity beyond an 8-bit size_type
     PairCfg("TR", V8, "v:basic:int8_t"), PairCfg("TC4", "f300", V8), PairCfg("NTR", "s4:basic:int8_t", S4U8),
+    PairCfg("NTR", "fu8", F3), PairCfg("TR", "fu4", S4),  # operands with different growing policies
 ]
 SWAP2_THOROUGH = [
     PairCfg("TR", V32, S4), PairCfg("NTR", V32, V8), PairCfg("TR", S2, S4), PairCfg("NTR", S4, S4U8), PairCfg("TR", S4, S3X), PairCfg("NTR", S4, F3),
